@@ -16,7 +16,7 @@ def run(ctx, res):
                 CollapseAmbiguities().transform(t)
             except Exception as e:
                 res.violation('regression of fixed finding F12: ' + f['what'], dict(w, error=repr(e)))
-    jobs, outs = forestlib.forest_stream(ctx, 4, {'c04'}, 260, 6000, prio=False)
+    jobs, outs = forestlib.forest_stream(ctx, 4, {'c04'}, 1500, 20000, prio=False)
     for job, rec in problems(res, jobs, outs, 'parsing with ambiguity=explicit'):
         if 'gerr' in rec:
             res.count('grammar_error'); continue
